@@ -1,4 +1,6 @@
 import PQ.Model.Ops
+import PQ.Model.Stateful
+import PQ.Model.SortedIter
 import PQ.Model.Observe
 import PQ.Model.Crash
 import PQ.Model.CrashCb
@@ -315,11 +317,26 @@ def showIterOuts (m : IMap Pr) (prims : List (ICall × IMWrite Pr)) : Out Pr →
     pure out
   | _ => "?out"
 
-/-- the predicate-call log of `retain` / `retain_mut`: the keys in slot order (the order `IndexMap::retain` visits them) -/
-def showRetainLog (st : St) : String :=
-  match observe st .intoVec with
-  | .ok (_, .entries l) => l.foldl (fun acc e => acc ++ s!" {e.1.key}") s!"{l.length}"
-  | _ => "?out"
+/-- the predicate-call log of `retain` / `retain_mut`: produced by the stateful twin of the operation
+(`Model/Stateful.lean`) run with a LOGGING closure — the keys the model function itself showed its predicate, in call order
+(`C08_retain_calls_once_per_element`: the stored entries in slot order, once each) -/
+def showRetainLog (st : St) (f : Item → Pr → Bool × Item × Pr) : String :=
+  let log := (st.s.retainMutS (fun (log : Array Nat) it p => (log.push it.key, f it p)) #[]).1
+  log.foldl (fun acc k => acc ++ s!" {k}") s!"{log.size}"
+
+/-- the element a `pop_if` / `pop_min_if` / `pop_max_if` shows its predicate: the state of a RECORDING predicate after the
+stateful twin of the operation ran (`C08_popIf_calls_once`: one call, on the element the peek reports; none on an empty
+queue); `none` also when the predicate was consulted more than once -/
+def shownToPredicate (st : St) (name : String) (f : Item → Pr → Bool × Item × Pr) : Option (Option Entry) :=
+  let g : PredS (List Entry) Pr := fun seen it p => (seen ++ [(it, p)], f it p)
+  let r : R (List Entry) := match name with
+    | "pop_if" => (MaxQ.popIfS st.s g []).map (fun x => x.1)
+    | "pop_min_if" => (DQ.popMinIfS st.s g []).map (fun x => x.1)
+    | _ => (DQ.popMaxIfS st.s g []).map (fun x => x.1)
+  match r with
+  | .ok [] => some none
+  | .ok [e] => some (some e)
+  | _ => none
 
 /-- a plain cursor over the entries `m` in slot order (`iter`, `into_iter`, `drain`), driven call by call -/
 def runCursor (m : IMap Pr) (calls : Array XCall) : String := Id.run do
@@ -416,10 +433,9 @@ def decodeLine (kind : Kind) (name : String) : Pm Line := do
   | "pop_if" | "pop_min_if" | "pop_max_if" =>
     let w ← writeP; let ret ← flag
     let f := popPred w ret
-    -- the element the predicate is shown: observed independently of the pop itself
-    let seen : Obs Pr := if name == "pop_if" then .peek else if name == "pop_min_if" then .peekMin else .peekMax
+    -- the element the predicate is shown: what the operation's stateful twin recorded
     let render : St → Out Pr → String := fun st o =>
-      match outEntry (observe st seen) with
+      match shownToPredicate st name f with
       | some e => s!"seen {showOptE e} ret {showOutEntry o}"
       | none => "?seen"
     pure <| .op { op := if name == "pop_max_if" then .popBackIf f else .popFrontIf f, render := render,
@@ -437,7 +453,7 @@ def decodeLine (kind : Kind) (name : String) : Pm Line := do
     let n ← nat; let rows ← rep n predRow
     -- `retain` hands out shared references: the rows' writes are ignored
     let rows := if name == "retain" then rows.map (fun r => { r with prio := none, payload := none }) else rows
-    pure <| .op { op := .retainMut (predOf rows), render := fun st _ => showRetainLog st }
+    pure <| .op { op := .retainMut (predOf rows), render := fun st _ => showRetainLog st (predOf rows) }
   | "iter_mut" =>
     let mode ← tok
     let n ← nat
@@ -567,23 +583,12 @@ def runIterMutLate (kind : Kind) (prog : Array (XCall × IMWrite Pr)) (s : Store
     | _ => pure ()
   pure ({ s1 with map := map }, out)
 
-/-- the sorted iterators as machines over the (consumed copy of the) store; outputs are printed directly -/
-inductive SOut where
-  | item (e : Option Entry)
-  | len (n : Nat)
-  | hint (lo : Nat) (hi : Option Nat)
-  | unsupported
+/-- the sorted iterators are the machines of `Model/SortedIter.lean` (`PQ.sortedStep`: `next` = the front pop of the kind,
+`next_back` = `pop_max`, `len` / `size_hint` as the two iterator types (do not) implement them) — the functions
+`C13_sorted_dpq_exact_size` / `C13_sorted_pq_shape` are about; the driver only prints their answers -/
+abbrev SOut := PQ.SOut Pr
 
-/-- `next` is the front pop of the kind, `next_back` the back pop (which `PriorityQueue`'s iterator does not have) -/
-def sortedStep (kind : Kind) (s : Store Pr) : ICall → R (Store Pr × SOut)
-  | .next => do
-    let (q, o) ← step ⟨kind, s⟩ .popFront
-    pure (q.s, match o with | .entry r => .item r | _ => .unsupported)
-  | .nextBack => do
-    let (q, o) ← step ⟨kind, s⟩ .popBack
-    pure (q.s, match o with | .entry r => .item r | _ => .unsupported)
-  | .len => pure (s, match kind with | .pq => .unsupported | .dpq => .len s.size)
-  | .sizeHint => pure (s, match kind with | .pq => .hint 0 none | .dpq => .hint s.size (some s.size))
+def sortedStep (kind : Kind) (s : Store Pr) : ICall → R (Store Pr × SOut) := PQ.sortedStep kind s
 
 def runSorted (kind : Kind) (calls : Array XCall) (s : Store Pr) : R (String × Nat) := do
   let mut s := s
@@ -606,7 +611,7 @@ def runSorted (kind : Kind) (calls : Array XCall) (s : Store Pr) : R (String × 
           | .item (some e) => lastE := some e; cnt := cnt + 1
           | _ => break
         gone := true
-        pure (match c with | .last => SOut.item lastE | _ => SOut.len cnt)
+        pure (match c with | .last => PQ.SOut.item lastE | _ => PQ.SOut.len cnt)
       | .prim c => do
         let (s', o) ← sortedStep kind s c
         s := s'
@@ -621,7 +626,7 @@ def runSorted (kind : Kind) (calls : Array XCall) (s : Store Pr) : R (String × 
             match o with
             | .item (some _) => pure ()
             | _ => stop := true
-        if stop then pure (SOut.item none)
+        if stop then pure (PQ.SOut.item none)
         else do
           let (s', o) ← sortedStep kind s adv
           s := s'
